@@ -2,7 +2,7 @@
    Theorems only; for an arbitrary message algebra, ANY include predicate (a function of id and
    value, also one that is true on absent values), any read mask and every history. *)
 From SC Require Import Base.Prelude Resource.Impl Resource.Spec Resource.Pull Resource.ImplProofs
-  Resource.SpecProofs Resource.PullProofs Resource.Flat Resource.Judge.
+  Resource.SpecProofs Resource.PullProofs Resource.HeldProofs Resource.Held04Proofs Resource.Flat Resource.Judge.
 
 Section C08.
   Variable M : Type.
@@ -61,7 +61,62 @@ Section C08.
     intros. destruct (seeds_shape r_filter ro (included ro (c_items s))) as [H _]. rewrite H.
     unfold c_list, included. rewrite map_map. reflexivity.
   Qed.
+  (* ---- include together with an EQUIVALENCE on the collection (the held map of Collection.Pull,
+     Pull.v [pull_collection_held], the code since /repo 3a50d70) ---- *)
+  (* for every history (also: an item leaves the filter and returns, is deleted and re-added), ANY
+     predicate, mask and REFLEXIVE comparer: what folding the filtered stream gives for an id is
+     equivalent to what List with the same predicate and mask shows for it *)
+  Theorem C08_held_fold_equivalent_to_filtered_list : forall cmp (ro : ropts M rmask) ops s s' outs,
+    (forall a, cmp a a = true) ->
+    ro_updates_only ro = false -> sorted str_ltb (c_items s) ->
+    run spec_step s ops = (s', outs) ->
+    forall id,
+      cmp (vlookup id (fold_view (pull_collection_held r_filter (Some cmp) s ro (flat_map snd outs))))
+          (vlookup id (c_list r_filter s' (ro_mask ro) (ro_include ro))) = true.
+  Proof. intros. eapply held_fold_equiv_list; eauto. Qed.
+
+  (* so, for a comparer that tells a value from nothing, an item is in the fold exactly when it is
+     in the filtered List: a return into the filter is never swallowed *)
+  Theorem C08_held_fold_same_presence : forall cmp (ro : ropts M rmask) ops s s' outs,
+    (forall a, cmp a a = true) ->
+    (forall v, cmp None (Some v) = false) -> (forall v, cmp (Some v) None = false) ->
+    ro_updates_only ro = false -> sorted str_ltb (c_items s) ->
+    run spec_step s ops = (s', outs) ->
+    forall id,
+      vlookup id (fold_view (pull_collection_held r_filter (Some cmp) s ro (flat_map snd outs))) = None <->
+      vlookup id (c_list r_filter s' (ro_mask ro) (ro_include ro)) = None.
+  Proof. intros. eapply held_fold_same_presence; eauto. Qed.
+
+  (* and for a comparer that decides equality (no-duplicates) the fold IS the filtered List *)
+  Theorem C08_held_fold_is_list_for_equality : forall cmp (ro : ropts M rmask) ops s s' outs,
+    (forall a, cmp a a = true) -> (forall a b, cmp a b = true -> a = b) ->
+    ro_updates_only ro = false -> sorted str_ltb (c_items s) ->
+    run spec_step s ops = (s', outs) ->
+    forall id,
+      vlookup id (fold_view (pull_collection_held r_filter (Some cmp) s ro (flat_map snd outs))) =
+      vlookup id (c_list r_filter s' (ro_mask ro) (ro_include ro)).
+  Proof. intros. eapply held_fold_is_list_for_equality; eauto. Qed.
+
+  (* the invariant behind it, for ANY chain of described events (lossy delivery's merged events):
+     the view stays equivalent to the filtered contents and the held map stays the view *)
+  Theorem C08_held_fold_any_described_chain : forall cmp (ro : ropts M rmask) evs l l' vw h,
+    (forall a, cmp a a = true) ->
+    chain l evs l' -> hview_inv r_filter cmp ro vw h l ->
+    hview_inv r_filter cmp ro (fold_left (@apply_change M) (c_forward_held r_filter (Some cmp) ro h evs) vw)
+              (held_after cmp h (offered r_filter ro evs)) l'.
+  Proof. intros. eapply chain_keeps_hview; eauto. Qed.
+
+  (* without an equivalence the held model is the model of the theorems above *)
+  Theorem C08_held_without_equivalence : forall (ro : ropts M rmask) (s : cstate M) evs,
+    pull_collection_held r_filter None s ro evs = pull_collection r_filter None s ro evs.
+  Proof. intros. apply held_none_is_pull_collection. Qed.
 End C08.
+
+Print Assumptions C08_held_fold_equivalent_to_filtered_list.
+Print Assumptions C08_held_fold_same_presence.
+Print Assumptions C08_held_fold_is_list_for_equality.
+Print Assumptions C08_held_fold_any_described_chain.
+Print Assumptions C08_held_without_equivalence.
 
 Print Assumptions C08_decision_table.
 Print Assumptions C08_filtered_fold_is_filtered_list.
@@ -275,3 +330,14 @@ Proof.
   intros. split; [constructor|]. intros i. unfold filtered, Include.shown, empty_view.
   destruct (t_inc tok idn ro); reflexivity.
 Qed.
+
+(* include + equivalence, non-vacuity: ON -> OFF -> ON under no-duplicates with a filter on ON: the
+   return is an ADD although its value equals the one last sent; fold = filtered List *)
+Example C08_nonvacuous_leave_and_return_equal :
+  let o := mkFWO None None None None false None false None false None None true false false false in
+  let ro := mkFRO None false (Some (PFieldGe Fa 1)) in
+  let '(cs, s2) := model_cstream None None (Some EqAll) [FUpdate "a" (mkF 1 0 0) o []] ro
+                     [FUpdate "a" (mkF 0 7 0) o []; FUpdate "a" (mkF 1 0 0) o []] in
+  map (fun c => (cc_kind c, cc_new c)) cs = [(KAdd, Some (mkF 1 0 0)); (KRemove, None); (KAdd, Some (mkF 1 0 0))] /\
+  Pull.fold_view cs = c_list fr_filter s2 None (Some (interp_pred (PFieldGe Fa 1))).
+Proof. vm_compute. split; reflexivity. Qed.
